@@ -434,6 +434,7 @@ static std::string doc_text(uint64_t seed, const char* stream, uint64_t doc_idx,
   return jm::render(v, r, ro);
 }
 
+#ifndef VF_FUZZ_TARGET
 int main(int argc, char** argv) {
   for (int i = 1; i + 1 < argc; i++)
     if (std::string(argv[i]) == "--prop") g_prop = argv[i + 1];
@@ -652,3 +653,4 @@ int main(int argc, char** argv) {
   }
   return vf::run(argc, argv, S);
 }
+#endif  // VF_FUZZ_TARGET
